@@ -31,7 +31,7 @@ static const char *QTN[7] = { "NULL", "PRIVATE", "TXT", "SRV", "MX", "CNAME", "A
 enum { K_LETTERS, K_QUERIES, K_ANSWERS, K_DUPS, K_CACHE_EXPECTED, K_CACHE_SAME, K_POS_CHECKS, K_MAXPEND, K_TUNW, K_DATA_ANS, K_HELD2, K_SAN = 20 };
 
 /* ---------------------------------------------------------------- alphabet */
-enum { L_PING, L_DATA_FIRST, L_DATA_LAST, L_DUP, L_TUN, L_TIME, L_RAWLOGIN, L_LAZY, L_SETFRAG };
+enum { L_PING, L_DATA_FIRST, L_DATA_LAST, L_DUP, L_TUN, L_TIME, L_RAWLOGIN, L_LAZY, L_SETFRAG, L_RELOGIN };
 enum { V_SAME, V_NEWID, V_NEWSRC, V_UPPER };
 typedef struct letter { int kind, a, b; char name[40]; } letter;
 static letter LT[128]; static int nlt;
@@ -55,6 +55,9 @@ static void mk_alphabet(void)
 		for (int i = 0; i < 7; i++) addl(L_SETFRAG, FS[i], 0, "N(%d)", FS[i]);
 		addl(L_DUP, 0, V_NEWID, "redeliver(0 back,newid)");
 		addl(L_TIME, 1000, 0, "+1s");
+		/* the session goes silent for 61 s and a new session (version, login, lazy switch; no size request yet) takes
+		 * over its slot: the limit in force for the new session is the default again */
+		addl(L_RELOGIN, 0, 0, "idle61s+newsession");
 		return;
 	}
 	addl(L_PING, 0, 0, "ping");
@@ -93,6 +96,7 @@ typedef struct model {
 	uint32_t seed;
 	int rawed;
 	int npkt;
+	int lazy, relogins;
 } model;
 static model M;
 static struct sockaddr_storage SRC_A, SRC_A2; static socklen_t SRCLEN;
@@ -222,6 +226,7 @@ static void send_q(const struct sockaddr_storage *src, const uint8_t *pkt, int l
 	adv_send(src, SRCLEN, pkt, len);
 }
 
+static void handshake(void);
 static void settle(void)
 {
 	if (vw_alive(0) && W.proc[0].deadline != VW_NEVER && W.proc[0].deadline - W.now <= 20000) { vw_run_until(W.proc[0].deadline); vw_run_quiescent(0); }
@@ -318,6 +323,20 @@ static int apply(int li)
 		plen = tm_setfrag(pkt, ++M.idseq, M.qt, 0, L->a, M.cmc++, DOM);
 		send_q(&SRC_A, pkt, plen);
 		break;
+	case L_RELOGIN: {
+		if (M.relogins >= 1) return 1;
+		adv_advance(61000000);
+		inspect_outputs(L->name);
+		int lazy = M.lazy, cmc = M.cmc, idseq = M.idseq, qt = M.qt, npkt = M.npkt;
+		memset(&M, 0, sizeof M); memset(&FST[1], 0, sizeof FST[1]);
+		M.lazy = lazy; M.cmc = cmc; M.idseq = idseq; M.qt = qt; M.npkt = npkt; M.relogins = 1;
+		handshake();
+		if (s_w_users()[0].seed != (int)M.seed) vw_fatal("new session did not take over slot 0");
+		for (int i = 0; i < NPEND; i++) M.pending[i].used = 0;
+		adv_clear();
+		do_settle = 0;
+		break;
+	}
 	case L_LAZY:
 		plen = tm_short(pkt, ++M.idseq, M.qt, 'o', tm_5to8(0), L->a ? 'l' : 'i', M.cmc++, DOM);
 		send_q(&SRC_A, pkt, plen);
@@ -394,6 +413,25 @@ static void expect_one(const char *what)
 	if (adv_nout < 1) vw_fatal("start state: no answer to %s", what);
 }
 
+static void handshake(void)
+{
+	uint8_t pkt[800]; int n;
+	/* version, login, lazy switch: as the real client does */
+	adv_clear(); n = tm_version(pkt, ++M.idseq, M.qt, 0x00000502, M.cmc++, DOM); send_q(&SRC_A, pkt, n);
+	{
+		static rd_msg m; static uint8_t pl[4096]; char err[128];
+		if (adv_nout != 1 || rd_parse(adv_outs[0].data, adv_outs[0].len, &m, err)) vw_fatal("start state: no version answer");
+		int k = decode_downstream(&m, adv_outs[0].data, pl, sizeof pl);
+		if (k < 9 || memcmp(pl, "VACK", 4)) vw_fatal("start state: no VACK (decoded %d bytes)", k);
+		M.seed = (pl[4] << 24) | (pl[5] << 16) | (pl[6] << 8) | pl[7];
+	}
+	expect_one("version");
+	uint8_t h[16]; ref_login(pw32, M.seed, h);
+	adv_clear(); n = tm_login(pkt, ++M.idseq, M.qt, 0, h, 16, M.cmc++, DOM); send_q(&SRC_A, pkt, n); expect_one("login");
+	if (!s_w_users()[0].authenticated) vw_fatal("start state: login not accepted");
+	if (M.lazy) { adv_clear(); n = tm_short(pkt, ++M.idseq, M.qt, 'o', tm_5to8(0), 'l', M.cmc++, DOM); send_q(&SRC_A, pkt, n); expect_one("lazy switch"); }
+}
+
 static void boot(int st0)
 {
 	int st = st0 >= 14 ? WARM_BASE[st0 - 14] : st0;
@@ -408,20 +446,8 @@ static void boot(int st0)
 	adv_boot(&c, 0, 0);
 	if (!pristine) pristine = malloc(sizeof *pristine * s_w_created_users());
 	memcpy(pristine, s_w_users(), sizeof *pristine * s_w_created_users());
-	/* version, login, lazy switch: as the real client does */
-	adv_clear(); n = tm_version(pkt, ++M.idseq, M.qt, 0x00000502, M.cmc++, DOM); send_q(&SRC_A, pkt, n);
-	{
-		static rd_msg m; static uint8_t pl[4096]; char err[128];
-		if (adv_nout != 1 || rd_parse(adv_outs[0].data, adv_outs[0].len, &m, err)) vw_fatal("start state: no version answer");
-		int k = decode_downstream(&m, adv_outs[0].data, pl, sizeof pl);
-		if (k < 9 || memcmp(pl, "VACK", 4)) vw_fatal("start state: no VACK (decoded %d bytes)", k);
-		M.seed = (pl[4] << 24) | (pl[5] << 16) | (pl[6] << 8) | pl[7];
-	}
-	expect_one("version");
-	uint8_t h[16]; ref_login(pw32, M.seed, h);
-	adv_clear(); n = tm_login(pkt, ++M.idseq, M.qt, 0, h, 16, M.cmc++, DOM); send_q(&SRC_A, pkt, n); expect_one("login");
-	if (!s_w_users()[0].authenticated) vw_fatal("start state: login not accepted");
-	if (st < 7) { adv_clear(); n = tm_short(pkt, ++M.idseq, M.qt, 'o', tm_5to8(0), 'l', M.cmc++, DOM); send_q(&SRC_A, pkt, n); expect_one("lazy switch"); }
+	M.lazy = st < 7;
+	handshake();
 	for (int i = 0; i < NPEND; i++) if (M.pending[i].used) vw_fatal("start state: handshake query left unanswered");
 	adv_clear();
 	if (st0 >= 14) {
